@@ -293,6 +293,7 @@ func (c *RetryClient) SetClient(ctx context.Context, cli *BaseClient) {
 	c.chTask = make(chan struct{}, 1)
 	go func() {
 		connected := false
+		var connSwitch chan struct{} // chConnSwitch of the client which the loop is connected with
 		ctx := context.Background()
 
 	L_TASK:
@@ -308,6 +309,7 @@ func (c *RetryClient) SetClient(ctx context.Context, cli *BaseClient) {
 					case _, ok := <-chConnectErr:
 						if !ok {
 							connected = true
+							connSwitch = chConnSwitch
 							continue L_TASK
 						}
 					case <-chConnSwitch:
@@ -317,12 +319,11 @@ func (c *RetryClient) SetClient(ctx context.Context, cli *BaseClient) {
 
 			c.mu.Lock()
 			chConnSwitch := c.chConnSwitch
-			select {
-			case <-chConnSwitch:
+			if chConnSwitch != connSwitch {
+				// Client was replaced by SetClient; wait Connect of the new one.
 				c.mu.Unlock()
 				connected = false
 				continue
-			default:
 			}
 
 			if len(c.taskQueue) == 0 {
